@@ -128,3 +128,20 @@ impl HookedUsize {
         self.0.store(value, order)
     }
 }
+
+type KMeansObserver = Box<dyn Fn(&[usize], &[usize]) + Send + Sync>;
+
+static KMEANS_OBSERVER: RwLock<Option<KMeansObserver>> = RwLock::new(None);
+
+/// Install (or remove, with `None`) the observer of k-means sweeps.
+pub fn set_kmeans_observer(observer: Option<KMeansObserver>) {
+    *KMEANS_OBSERVER.write().unwrap() = observer;
+}
+
+/// Called by `assign_and_balance` after each assignment sweep with the
+/// current assignments and the cluster ids points may be assigned to.
+pub fn kmeans_sweep(assignments: &[usize], center_ids: &[usize]) {
+    if let Some(observer) = KMEANS_OBSERVER.read().unwrap().as_ref() {
+        observer(assignments, center_ids);
+    }
+}
